@@ -97,6 +97,15 @@ class Bounds:
                 g = e[1]
                 if g[0] == "call" and g[1].endswith("Try>::branch") and len(g[2]) == 1:
                     g = g[2][0]
+                if g[0] == "call" and g[1].endswith(("::get", "::get_mut")) and len(g[2]) == 2 and g[2][1][0] == "agg" and g[2][1][1].endswith("RangeTo::RangeTo"):
+                    # x.get(..k) is Some exactly when k <= len(x)
+                    vn = S.variant(d, taken)
+                    lx = ("call", SLICE_LEN, (g[2][0],))
+                    if vn in ("Some", "Continue"):
+                        self.rel.append((g[2][1][2][0], lx, False))
+                    elif vn in ("None", "Break"):
+                        self.rel.append((lx, g[2][1][2][0], True))
+                    continue
                 if g[0] == "call" and g[1].endswith("::get") and len(g[2]) == 2:
                     vn = S.variant(d, taken)
                     base = g[2][0]
@@ -1511,6 +1520,9 @@ def symlen(F, b, e, env):
             v = _slen(F, b, e, B0(), env, lambda x: None)
             return C(v) if v is not None else None
         return symlen(F, b, inner, env)
+    if k == "field" and e[2] == 0 and e[1][0] == "variant" and e[1][2] == "Some" and e[1][1][0] == "call" \
+            and e[1][1][1].endswith(("::get", "::get_mut")) and len(e[1][1][2]) == 2 and e[1][1][2][1][0] == "agg":
+        return symlen(F, b, ("call", "core::slice::index::<impl core::ops::Index<I> for [T]>::index", e[1][1][2]), env)
     if k == "field" and e[2] in (0, 1) and e[1][0] == "call" and e[1][1].endswith(("::split_at", "::split_at_mut")) and len(e[1][2]) == 2:
         # x.split_at(k) = (x[..k], x[k..])
         if e[2] == 0:
